@@ -45,7 +45,12 @@ func VerifC09IDAccessors(v *verifrt.T) {
 // (codecs.go: reflectSliceCodec.DecodeTo / varuintSliceCodec.DecodeTo / byteSliceCodec.DecodeTo,
 // v1.0.19). The stand-ins below follow those functions line by line over the real Decoder.
 
-func c09SnappyDecode(dst, src []byte) ([]byte, error) { return append([]byte(nil), src...), nil }
+func c09SnappyDecode(dst, src []byte) ([]byte, error) {
+	if len(src) <= len(dst) { // like the real one: into dst when it is long enough
+		return dst[:copy(dst, src)], nil
+	}
+	return append([]byte(nil), src...), nil
+}
 
 func c09Unmarshal(b []byte, out interface{}) error {
 	d := binary.NewDecoder(bytes.NewBuffer(b))
